@@ -10,7 +10,7 @@ ID = 'C20'
 RULE = ('CSV tables of 1..50 rows over the non-derived configured output columns (MTI, data elements, PDS sub-elements; every fifth table has the '
         'PDS carrier columns together with PDS columns, each row using one kind), cells with commas, quotes, leading/trailing spaces and boundary lengths, plain '
         'decimal numbers, ISO date-times across the two-digit-year window, empty cells = absent; latin_1/cp500 x blocking; through '
-        'mci_csv_to_ipm / mci_ipm_to_csv as functions and through their command entry points on real files (packaged configuration, and the same configuration handed over as --config-file, as cardutil.json in $CARDUTIL_CONFIG, and without the output column list); '
+        'mci_csv_to_ipm / mci_ipm_to_csv as functions and through their command entry points on real files (packaged configuration, and the same configuration handed over as --config-file, as cardutil.json in $CARDUTIL_CONFIG, and without the output column list; extraction also through `mideu extract`); '
         'non-trivial = distinct table with at least 2 rows')
 EXHAUSTIVE = {}
 ASSUMPTIONS = ['CPython csv module: read(write(rows)) = rows for cells without CR/LF (oracle)', 'cells contain no CR/LF (outside the stated domain)']
@@ -82,7 +82,7 @@ def gen(rng, tier):
                 drop = (lambda c: c.startswith('PDS')) if rng.random() < 0.5 else is_carrier
                 row = ['' if drop(c) else v for c, v in zip(cols, row)]
             rows.append(row)
-        cases.append({'cols': cols, 'rows': rows, 'codec': rng.choice(['latin_1', 'cp500']), 'blocked': rng.random() < 0.5, 'via': ['cli', 'cli-config', 'cli-env', 'cli-nolist'][(i // 3) % 4] if i % 3 == 0 else 'func'})
+        cases.append({'cols': cols, 'rows': rows, 'codec': rng.choice(['latin_1', 'cp500']), 'blocked': rng.random() < 0.5, 'via': ['cli', 'cli-config', 'cli-mideu', 'cli-env', 'cli-nolist', 'cli-mideu'][(i // 3) % 6] if i % 3 == 0 else 'func'})
     return cases
 
 
@@ -132,8 +132,14 @@ def impl(case):
             with contextlib.redirect_stdout(io.StringIO()):
                 a = cfg_args + ['--out-encoding', case['codec']] + (['--no1014blocking'] if nb else [])
                 mci_csv_to_ipm.cli_run(**vars(mci_csv_to_ipm.cli_parser().parse_args([base + '.csv', '-o', base + '.ipm', '--in-encoding', 'utf8'] + a)))
-                a = cfg_args + ['--in-encoding', case['codec']] + (['--no1014blocking'] if nb else [])
-                mci_ipm_to_csv.cli_run(**vars(mci_ipm_to_csv.cli_parser().parse_args([base + '.ipm', '-o', base + '.out.csv', '--out-encoding', 'utf8'] + a)))
+                if case['via'] == 'cli-mideu':
+                    # the other extraction command: mideu extract (source format by name, its own blocking switch)
+                    from cardutil.cli import mideu
+                    mideu.cli_entry(['extract', base + '.ipm', '-s', 'ebcdic' if case['codec'] == 'cp500' else 'ascii', '--csvoutputfile', base + '.out.csv']
+                                    + (['--no1014blocking'] if nb else []))
+                else:
+                    a = cfg_args + ['--in-encoding', case['codec']] + (['--no1014blocking'] if nb else [])
+                    mci_ipm_to_csv.cli_run(**vars(mci_ipm_to_csv.cli_parser().parse_args([base + '.ipm', '-o', base + '.out.csv', '--out-encoding', 'utf8'] + a)))
             with open(base + '.ipm', 'rb') as f:
                 ipm = f.read()
             with open(base + '.out.csv', 'r', encoding='utf8', newline='') as f:
